@@ -114,6 +114,13 @@ def run(ctx):
                 for coe in (False, True):
                     pos_cases.append((base3, mode, coe, fenv, pos))
                     refs.append(([p for i, p in enumerate(base3, 1) if i != pos], mode, coe, ENV_CONTENT))
+    # ... and faults that strike only in a later pass of fix mode (the pass of the plug-in's own level, 1)
+    for pos in (1, 2, 3):
+        for cb, nth in (("token", 1), ("token", 3), ("line", 2), ("complete", 1)):
+            fenv = {"PV_FAULT": json.dumps({"cb": cb, "file": f"f{pos}.md", "nth": nth, "ctx": "fix"}), "PV_FAULT_FIX": "1", "PV_FAULT_LEVEL": "1", "PV_FAULT_ID": "zzx999"}
+            for coe in (False, True):
+                pos_cases.append((base3, "fix", coe, fenv, pos))
+                refs.append(([p for i, p in enumerate(base3, 1) if i != pos], "fix", coe, ENV_CONTENT))
     allcases = cases + [c[:4] for c in pos_cases]
     res = impl.pmap(_run, allcases, chunksize=8)
     uniq_refs = {}
